@@ -96,6 +96,14 @@ func c20Scenarios(tier string) []*Scenario {
 	// Header() consumes a frame too
 	add("s2c-header-peek", "", RPC{Kind: "bd", Client: []string{"S0", "C", "H"}, Handler: []string{"r", "s0", "s1", "s2", "ret:ok"}})
 	add("s2c-header-peek", "", RPC{Kind: "bd", Client: []string{"S0", "C", "H"}, Handler: []string{"r", "h:a", "s0", "s1", "s2", "ret:ok"}})
+	// asking for the headers again is not receiving: however often Header() is called, the sender gets
+	// no further than the frame Header() looked at plus the one buffer slot
+	for _, hs := range [][]string{{"H", "H"}, {"H", "H", "H"}, {"H", "H", "H", "H", "H"}} {
+		for _, hdr := range [][]string{nil, {"h:a"}} {
+			add("s2c-header-repeat", "", RPC{Kind: "bd", Client: cat([]string{"S0", "C"}, hs), Handler: cat([]string{"r"}, hdr, sends("s", 6), []string{"ret:ok"})})
+			add("s2c-header-repeat", "", RPC{Kind: "ss", Client: cat([]string{"S0", "C"}, hs, []string{"R"}), Handler: cat([]string{"r"}, hdr, sends("s", 6), []string{"ret:ok"})})
+		}
+	}
 	return out
 }
 
@@ -178,6 +186,20 @@ func c20Oracle(sc *Scenario, rec *Rec, s *mc.Sched) []mc.Violation {
 		}
 		if n > k+1 && !blockedIn("handler:SendMsg") {
 			out = append(out, mc.Violation{Clause: "sender-not-blocked", Obs: fmt.Sprintf("n=%d k=%d", n, k)})
+		}
+	case "s2c-header-repeat":
+		// Header() takes at most one frame (the header frame, or else the first message, which it
+		// keeps for the next receive); a receive takes one more; one frame fits the buffer
+		want := 2
+		if countOp(rpc.Handler, "h:a") > 0 {
+			want = 1
+		}
+		want += countOp(rpc.Client, "R")
+		if rr.SrvSendDone > want {
+			out = append(out, mc.Violation{Clause: "sender-progress", Obs: fmt.Sprintf("handler completed %d sends although the client only asked for headers %d times and received %d times, want at most %d", rr.SrvSendDone, countOp(rpc.Client, "H"), countOp(rpc.Client, "R"), want)})
+		}
+		if countOp(rpc.Client, "R") > 0 && len(rr.CliRecv) > 0 && rr.CliRecv[0] != tag(0, "s", 0) {
+			out = append(out, mc.Violation{Clause: "first-message-lost", Obs: fmt.Sprintf("the first receive after the Header() calls returned %s", rr.CliRecv[0])})
 		}
 	case "c2s-cancel", "s2c-cancel", "c2s-finish":
 		// released: nothing may still be parked in an API call
